@@ -34,6 +34,11 @@ capacity / value obligations, while the registration frame keeps the deregistrat
                whose guard reads state written on the lookup path fails the lookup because of other lookups (circuit breaker, admission limit);
                the shutdown guard (state written only off the lookup path) is outside the property; anything else is declined
 Does not decide: which entry is evicted (any one suffices for the bound), behaviour during shutdown(), the loader's own errors.
+Normal forms (engines/c26norm): membership of the key in a map is one atom whatever its spelling (`k not in M`, `M.get(k) is None` also through a
+local, truthiness of a task); predicate / accessor helpers called in a test are read as the expression they return; the capacity test is any linear
+comparison of len(map) with num_slots (inlined or in `_over_capacity`), decided per branch edge; `_put` / `_remove` are read with their helpers inlined.
+A FAIL needs a recognised shape that breaks the obligation; a shape that is merely different declines.  R4 / R3 constructs are keyed by role
+(`waiter / loader awaits the shared task`, `registration`), not by statement text.
 """
 from __future__ import annotations
 
